@@ -1,5 +1,5 @@
 (* C14 - statements only.  Text, tree and binary forms of a document agree, and so do path look-ups. *)
-Require Import ZArith List. Require Import IW.JSON.Val IW.JSON.Binn IW.JSON.Ptr IW.JSON.Binn_proofs IW.Gen.Facts.
+Require Import ZArith List. Require Import IW.JSON.Val IW.JSON.Binn IW.JSON.Ptr IW.JSON.Binn_proofs IW.JSON.Ptr_proofs IW.Gen.Facts.
 Import ListNotations. Local Open Scope Z_scope.
 
 Definition C14_doc : jval :=
@@ -32,3 +32,51 @@ Print Assumptions C14_binn_clone_same.
 
 Example C14_binn_clone_same_ex : exists bs, binn_encode C14_doc = Some bs /\ binn_clone bs = Some bs.
 Proof. eexists. split; [vm_compute; reflexivity|vm_compute; reflexivity]. Qed.
+
+(* _jbl_ptr_pool computes the RFC 6901 reference tokens (with ~0 and ~1 unescaped) of every pointer text that does not
+   end in '/' (the one-character pointer "/" is fine); ill-formed texts ('~' not followed by 0/1, no leading '/') give
+   no segment list on both sides *)
+Theorem C14_ptr_parse_rfc6901 : forall path, trailing_slash (cstr path) = false ->
+  ptr_parse path = rfc_ptr_parse (cstr path).
+Proof. exact ptr_parse_rfc6901. Qed.
+Print Assumptions C14_ptr_parse_rfc6901.
+
+Example C14_ptr_parse_rfc6901_ex :
+  trailing_slash (cstr [47; 97; 126; 49; 98; 47; 47; 109; 126; 48; 110; 47; 48]) = false /\
+  ptr_parse [47; 97; 126; 49; 98; 47; 47; 109; 126; 48; 110; 47; 48] = Some [[97; 47; 98]; []; [109; 126; 110]; [48]].
+Proof. split; vm_compute; reflexivity. Qed.
+
+(* ... and refuses every longer text that ends in '/', which RFC 6901 reads as a last segment "" (excluded by C14) *)
+Theorem C14_ptr_parse_trailing_slash : forall path, trailing_slash (cstr path) = true -> ptr_parse3 path = PErr.
+Proof. exact ptr_parse_trailing_slash. Qed.
+Print Assumptions C14_ptr_parse_trailing_slash.
+
+Example C14_ptr_parse_trailing_slash_ex : trailing_slash (cstr [47; 97; 47]) = true /\ rfc_ptr_parse [47; 97; 47] = Some [[97]; []].
+Proof. split; vm_compute; reflexivity. Qed.
+
+(* jbn_at on the tree and jbl_at on the binary form of the same document return the same thing, namely the RFC 6901
+   referent or not-found, for every pointer without a '*' segment and with at most JBL_MAX_NESTING_LEVEL segments;
+   `small`: arrays shorter than 2^31 elements *)
+Theorem C14_at_agree : forall v bs path ptr, wf v = true -> small v = true -> binn_encode v = Some bs ->
+  forallb byte_ok path = true -> ptr_parse path = Some ptr ->
+  Forall (fun s => star s = false) ptr -> zlen ptr <= jbinn_JBL_MAX_NESTING_LEVEL ->
+  at_tree v path = at_binn bs path /\
+  at_tree v path = match rfc6901_at ptr v with Some r => AtFound r | None => AtNotFound end.
+Proof. exact at_agree_text. Qed.
+Print Assumptions C14_at_agree.
+
+Example C14_at_agree_ex :
+  let path := [47; 97; 47; 50] in
+  wf C14_doc = true /\ small C14_doc = true /\ forallb byte_ok path = true /\
+  ptr_parse path = Some [[97]; [50]] /\ rfc6901_at [[97]; [50]] C14_doc = Some (JStr [104; 105]) /\
+  at_tree C14_doc path = AtFound (JStr [104; 105]).
+Proof. repeat split; vm_compute; reflexivity. Qed.
+
+(* the cursor-free search both walks implement is RFC 6901 evaluation (documents with unique keys) *)
+Theorem C14_dfs_is_rfc6901 : forall segs v, wf v = true -> small v = true -> segs <> [] ->
+  dfs segs (kids_list v) = rfc6901_at segs v.
+Proof. intros segs v Hw Hs. apply dfs_rfc. split; assumption. Qed.
+Print Assumptions C14_dfs_is_rfc6901.
+
+Example C14_dfs_is_rfc6901_ex : dfs [[107; 126; 47]; []] (kids_list C14_doc) = Some (JF64 4609434218613702656).
+Proof. vm_compute. reflexivity. Qed.
